@@ -70,6 +70,10 @@ func rtName(fileName, class string) string {
 			return strings.ReplaceAll(fileName, ".", "_") + "." + ts
 		}
 		return "other-" + fileName + "." + ts
+	case "fracdot":
+		return fileName + "." + ts + ".123"
+	case "fraccomma":
+		return fileName + "." + ts + ",5"
 	case "insub": // looks like an own file, but lives in a sub-directory of the log directory
 		return filepath.Join("archive", fileName+"."+ts)
 	}
@@ -114,8 +118,16 @@ func cmdRetention(f hx.Flags, r *hx.Result) {
 		}()
 		maxAge := ages[rng.Intn(len(ages))]
 		fileName := fileNames[n%len(fileNames)]
+		// every fifth population is reached through a symbolic link: the configured log directory is a link to the real one
+		appDir := dir
+		if n%5 == 3 {
+			link := filepath.Join(tmp, fmt.Sprintf("via-link-%d", n))
+			if os.Symlink(dir, link) == nil {
+				appDir = link // removed with the scratch directory
+			}
+		}
 		app := &log.RollingFileAppender{Layout: &log.TextLayout{BaseLayout: log.BaseLayout{FileLineLength: 48}},
-			FileDir: dir, FileName: fileName, Rotation: log.TimeRotation{Interval: time.Hour}, MaxAge: maxAge}
+			FileDir: appDir, FileName: fileName, Rotation: log.TimeRotation{Interval: time.Hour}, MaxAge: maxAge}
 		if err := app.Start(); err != nil {
 			r.SetInfra("start: %v", err)
 			return nil
@@ -123,7 +135,12 @@ func cmdRetention(f hx.Flags, r *hx.Result) {
 		app.Write([]byte("current\n"))
 		cur, _, _ := log.VerifRollingState(app)
 		want := map[string]bool{filepath.Base(cur): true}
-		desc := map[string]any{"population": c.Pop, "maxAge": maxAge, "fileName": fileName, "two_scans": c.TwoScans}
+		desc := map[string]any{"population": c.Pop, "maxAge": maxAge, "fileName": fileName, "two_scans": c.TwoScans, "dir_is_link": appDir != dir}
+		if n%4 == 2 { // the file being written carries a modification time ahead of this machine's clock
+			ahead := time.Now().Add([]time.Duration{30 * time.Second, 3 * time.Hour}[n/4%2])
+			_ = os.Chtimes(cur, ahead, ahead)
+			desc["current_file_mtime"] = "ahead of the clock"
+		}
 		sig := ""
 		var rewritten []string
 		t0 := time.Now()
@@ -146,6 +163,8 @@ func cmdRetention(f hx.Flags, r *hx.Result) {
 			switch e.Age {
 			case "older":
 				mt = cut.Add(-delta)
+			case "future": // ahead of this machine's clock by half a minute or by hours
+				mt = t0.Add([]time.Duration{30 * time.Second, 2 * time.Hour, 1 * time.Second}[rng.Intn(3)])
 			case "rewritten":
 				mt = cut.Add(rtMargin) // young by a small margin now, behind the cut-off at the second scan
 				rewritten = append(rewritten, p)
